@@ -1,0 +1,514 @@
+//! Verification hooks (only compiled with `--features verif`): re-exports of private items and a
+//! controllable replacement for Mutex / Condvar / thread, so that a harness decides which worker
+//! runs next.
+//!
+//! Nothing in here changes the behaviour of the program: with the feature off this file is not
+//! compiled at all.
+pub use crate::bab::{solve as bab_solve, NodeResult, Statistics};
+pub use crate::caobab::verif_api as caobab_api;
+pub use crate::hungarian::{hungarian_algorithm, EdgeWeight, Matching, Score};
+pub use crate::util::{binom, IterSelections, KSelectionIterator};
+
+/// Plain-data view of a `Course` (all fields, including the private ones)
+#[derive(Clone, Debug)]
+pub struct CourseDump {
+    pub index: usize,
+    pub dbid: usize,
+    pub name: String,
+    pub num_max: usize,
+    pub num_min: usize,
+    pub instructors: Vec<usize>,
+    pub room_factor: f32,
+    pub room_offset: f32,
+    pub fixed_course: bool,
+    pub hidden_participant_names: Vec<String>,
+}
+
+/// Plain-data view of a `Participant`: (course_index, penalty) per choice
+#[derive(Clone, Debug)]
+pub struct ParticipantDump {
+    pub index: usize,
+    pub dbid: usize,
+    pub name: String,
+    pub choices: Vec<(usize, u32)>,
+}
+
+pub fn dump_course(c: &crate::Course) -> CourseDump {
+    CourseDump {
+        index: c.index,
+        dbid: c.dbid,
+        name: c.name.clone(),
+        num_max: c.num_max,
+        num_min: c.num_min,
+        instructors: c.instructors.clone(),
+        room_factor: c.room_factor,
+        room_offset: c.room_offset,
+        fixed_course: c.fixed_course,
+        hidden_participant_names: c.hidden_participant_names.clone(),
+    }
+}
+
+pub fn make_course(d: &CourseDump) -> crate::Course {
+    crate::Course {
+        index: d.index,
+        dbid: d.dbid,
+        name: d.name.clone(),
+        num_max: d.num_max,
+        num_min: d.num_min,
+        instructors: d.instructors.clone(),
+        room_factor: d.room_factor,
+        room_offset: d.room_offset,
+        fixed_course: d.fixed_course,
+        hidden_participant_names: d.hidden_participant_names.clone(),
+    }
+}
+
+pub fn dump_participant(p: &crate::Participant) -> ParticipantDump {
+    ParticipantDump {
+        index: p.index,
+        dbid: p.dbid,
+        name: p.name.clone(),
+        choices: p
+            .choices
+            .iter()
+            .map(|c| (c.course_index, c.penalty))
+            .collect(),
+    }
+}
+
+pub fn make_participant(d: &ParticipantDump) -> crate::Participant {
+    crate::Participant {
+        index: d.index,
+        dbid: d.dbid,
+        name: d.name.clone(),
+        choices: d
+            .choices
+            .iter()
+            .map(|(c, p)| crate::Choice {
+                course_index: *c,
+                penalty: *p,
+            })
+            .collect(),
+    }
+}
+
+pub mod sched {
+    use std::any::Any;
+    use std::sync::{Arc, Condvar as StdCondvar, Mutex as StdMutex};
+
+    #[derive(Clone, Debug, PartialEq)]
+    pub enum TState {
+        Runnable,
+        WantLock(usize),
+        Waiting(usize, usize), // (condvar id, mutex id)
+        Join(usize),
+        Finished,
+    }
+
+    #[derive(Clone, Debug)]
+    pub enum Event {
+        Run(usize),
+        Wake(usize),
+        Note(usize, String),
+        Block(usize, String),
+        Exit(usize, bool),
+        Deadlock,
+        /// the step budget given to `run` was used up (the run is torn down like a deadlock)
+        Budget,
+    }
+
+    /// What the chooser sees at a scheduling point
+    pub struct View<'a> {
+        pub enabled: &'a [usize],
+        pub waiting: &'a [usize],
+    }
+
+    pub struct Abort;
+
+    pub struct Inner {
+        pub current: usize,
+        pub threads: Vec<TState>,
+        pub locked: Vec<bool>,
+        pub results: Vec<Option<Result<(), Box<dyn Any + Send>>>>,
+        pub trace: Vec<Event>,
+        pub aborted: bool,
+        pub next_obj: usize,
+        /// OS threads behind the shim threads; `run` joins them all before it returns
+        pub os_handles: Vec<std::thread::JoinHandle<()>>,
+        /// number of scheduling decisions taken so far / allowed
+        pub steps: usize,
+        pub max_steps: usize,
+        /// picks an index into `enabled`; may also return a waiting thread to wake spuriously first
+        pub chooser: Box<dyn FnMut(&View) -> (usize, Option<usize>) + Send>,
+    }
+
+    pub struct Controller {
+        pub inner: StdMutex<Inner>,
+        pub cv: StdCondvar,
+    }
+
+    static CTRL: StdMutex<Option<Arc<Controller>>> = StdMutex::new(None);
+    thread_local! { static ME: std::cell::Cell<usize> = std::cell::Cell::new(usize::MAX); }
+
+    pub fn ctrl() -> Arc<Controller> {
+        CTRL.lock().unwrap().as_ref().expect("no scheduler installed").clone()
+    }
+    pub fn me() -> usize {
+        ME.with(|m| m.get())
+    }
+    pub fn set_me(id: usize) {
+        ME.with(|m| m.set(id))
+    }
+
+    impl Inner {
+        fn enabled(&self) -> Vec<usize> {
+            self.threads
+                .iter()
+                .enumerate()
+                .filter(|(_, s)| match s {
+                    TState::Runnable => true,
+                    TState::WantLock(m) => !self.locked[*m],
+                    TState::Join(t) => self.threads[*t] == TState::Finished,
+                    _ => false,
+                })
+                .map(|(i, _)| i)
+                .collect()
+        }
+        fn waiting(&self) -> Vec<usize> {
+            self.threads
+                .iter()
+                .enumerate()
+                .filter(|(_, s)| matches!(s, TState::Waiting(..)))
+                .map(|(i, _)| i)
+                .collect()
+        }
+        /// choose the next thread to run (or detect deadlock)
+        fn dispatch(&mut self) {
+            loop {
+                let enabled = self.enabled();
+                let waiting = self.waiting();
+                if enabled.is_empty() {
+                    if self.threads.iter().all(|s| *s == TState::Finished) {
+                        return;
+                    }
+                    self.trace.push(Event::Deadlock);
+                    self.aborted = true;
+                    return;
+                }
+                self.steps += 1;
+                if self.steps > self.max_steps {
+                    self.trace.push(Event::Budget);
+                    self.aborted = true;
+                    return;
+                }
+                let (k, spurious) = (self.chooser)(&View { enabled: &enabled, waiting: &waiting });
+                if let Some(w) = spurious {
+                    if let TState::Waiting(_, m) = self.threads[w] {
+                        self.threads[w] = TState::WantLock(m);
+                        self.trace.push(Event::Wake(w));
+                        continue;
+                    }
+                }
+                let t = enabled[k % enabled.len()];
+                self.current = t;
+                self.trace.push(Event::Run(t));
+                return;
+            }
+        }
+    }
+
+    pub fn dispatch_of(inner: &mut Inner) {
+        inner.dispatch();
+    }
+
+    /// Record something that happened inside the current slice (called from instrumented code).
+    pub fn note(s: String) {
+        let c = ctrl();
+        let id = me();
+        c.inner.lock().unwrap().trace.push(Event::Note(id, s));
+    }
+
+    /// Block the calling thread in state `st` until the scheduler picks it again.
+    pub fn yield_as(st: TState) {
+        let c = ctrl();
+        let id = me();
+        let mut g = c.inner.lock().unwrap();
+        g.trace.push(Event::Block(id, format!("{:?}", st)));
+        g.threads[id] = st;
+        g.dispatch();
+        c.cv.notify_all();
+        while !(g.aborted || g.current == id) {
+            g = c.cv.wait(g).unwrap();
+        }
+        if g.aborted {
+            drop(g);
+            std::panic::resume_unwind(Box::new(Abort));
+        }
+        g.threads[id] = TState::Runnable;
+    }
+
+    pub struct Outcome<R> {
+        pub result: Result<R, Box<dyn Any + Send>>,
+        pub trace: Vec<Event>,
+        /// the run was torn down by the scheduler (no runnable thread, or budget used up)
+        pub deadlock: bool,
+        pub steps: usize,
+        /// shim threads that had not finished when `f` returned (they are torn down by `run`)
+        pub leftover: usize,
+    }
+
+    /// Run `f` (which may call into code using the shim) under the given chooser.
+    pub fn run<R>(
+        chooser: Box<dyn FnMut(&View) -> (usize, Option<usize>) + Send>,
+        max_steps: usize,
+        f: impl FnOnce() -> R,
+    ) -> Outcome<R> {
+        let c = Arc::new(Controller {
+            inner: StdMutex::new(Inner {
+                current: 0,
+                threads: vec![TState::Runnable],
+                locked: vec![],
+                results: vec![None],
+                trace: vec![],
+                aborted: false,
+                next_obj: 0,
+                os_handles: vec![],
+                steps: 0,
+                max_steps,
+                chooser,
+            }),
+            cv: StdCondvar::new(),
+        });
+        *CTRL.lock().unwrap() = Some(c.clone());
+        set_me(0);
+        let result = std::panic::catch_unwind(std::panic::AssertUnwindSafe(f));
+        let mut g = c.inner.lock().unwrap();
+        g.threads[0] = TState::Finished;
+        let trace = g.trace.clone();
+        let deadlock = g.aborted;
+        let steps = g.steps;
+        let leftover = g
+            .threads
+            .iter()
+            .filter(|s| **s != TState::Finished)
+            .count();
+        // tear down whatever is still blocked, and wait for the OS threads, so that nothing of
+        // this run can touch the scheduler of the next one
+        g.aborted = true;
+        let handles: Vec<_> = g.os_handles.drain(..).collect();
+        drop(g);
+        c.cv.notify_all();
+        for h in handles {
+            let _ = h.join();
+        }
+        *CTRL.lock().unwrap() = None;
+        Outcome { result, trace, deadlock, steps, leftover }
+    }
+}
+
+pub mod sync {
+    use super::sched::{self, TState};
+    use std::ops::{Deref, DerefMut};
+
+    pub struct Mutex<T> {
+        id: usize,
+        data: std::sync::Mutex<T>,
+    }
+    pub struct MutexGuard<'a, T> {
+        mutex: &'a Mutex<T>,
+        inner: Option<std::sync::MutexGuard<'a, T>>,
+    }
+    impl<T> Mutex<T> {
+        pub fn new(t: T) -> Self {
+            let c = sched::ctrl();
+            let mut g = c.inner.lock().unwrap();
+            g.locked.push(false);
+            let id = g.locked.len() - 1;
+            Mutex { id, data: std::sync::Mutex::new(t) }
+        }
+        pub fn lock(&self) -> Result<MutexGuard<'_, T>, ()> {
+            sched::yield_as(TState::WantLock(self.id));
+            self.acquire()
+        }
+        fn acquire(&self) -> Result<MutexGuard<'_, T>, ()> {
+            let c = sched::ctrl();
+            let mut g = c.inner.lock().unwrap();
+            assert!(!g.locked[self.id], "scheduler granted a held lock");
+            g.locked[self.id] = true;
+            drop(g);
+            Ok(MutexGuard { mutex: self, inner: Some(self.data.lock().unwrap_or_else(|e| e.into_inner())) })
+        }
+        pub fn into_inner(self) -> Result<T, ()> {
+            Ok(self.data.into_inner().unwrap_or_else(|e| e.into_inner()))
+        }
+    }
+    impl<'a, T> Drop for MutexGuard<'a, T> {
+        fn drop(&mut self) {
+            if self.inner.take().is_some() {
+                let c = sched::ctrl();
+                let mut g = c.inner.lock().unwrap();
+                g.locked[self.mutex.id] = false;
+            }
+        }
+    }
+    impl<'a, T> Deref for MutexGuard<'a, T> {
+        type Target = T;
+        fn deref(&self) -> &T {
+            self.inner.as_ref().unwrap()
+        }
+    }
+    impl<'a, T> DerefMut for MutexGuard<'a, T> {
+        fn deref_mut(&mut self) -> &mut T {
+            self.inner.as_mut().unwrap()
+        }
+    }
+
+    pub struct Condvar {
+        id: usize,
+    }
+    impl Condvar {
+        pub fn new() -> Self {
+            let c = sched::ctrl();
+            let mut g = c.inner.lock().unwrap();
+            g.next_obj += 1;
+            Condvar { id: g.next_obj }
+        }
+        pub fn wait<'a, T>(&self, mut guard: MutexGuard<'a, T>) -> Result<MutexGuard<'a, T>, ()> {
+            let mutex = guard.mutex;
+            // release the lock and go to sleep atomically (w.r.t. the scheduler)
+            guard.inner.take();
+            {
+                let c = sched::ctrl();
+                let mut g = c.inner.lock().unwrap();
+                g.locked[mutex.id] = false;
+            }
+            std::mem::forget(guard);
+            sched::yield_as(TState::Waiting(self.id, mutex.id));
+            mutex.acquire()
+        }
+        pub fn notify_one(&self) {
+            let c = sched::ctrl();
+            let mut g = c.inner.lock().unwrap();
+            let waiting: Vec<usize> = g
+                .threads
+                .iter()
+                .enumerate()
+                .filter(|(_, s)| matches!(s, TState::Waiting(cv, _) if *cv == self.id))
+                .map(|(i, _)| i)
+                .collect();
+            if !waiting.is_empty() {
+                let (k, _) = (g.chooser)(&sched::View { enabled: &waiting, waiting: &[] });
+                let w = waiting[k % waiting.len()];
+                if let TState::Waiting(_, m) = g.threads[w] {
+                    g.threads[w] = TState::WantLock(m);
+                    g.trace.push(sched::Event::Wake(w));
+                }
+            }
+        }
+        pub fn notify_all(&self) {
+            let c = sched::ctrl();
+            let mut g = c.inner.lock().unwrap();
+            for w in 0..g.threads.len() {
+                if let TState::Waiting(cv, m) = g.threads[w] {
+                    if cv == self.id {
+                        g.threads[w] = TState::WantLock(m);
+                        g.trace.push(sched::Event::Wake(w));
+                    }
+                }
+            }
+        }
+    }
+}
+
+pub mod thread {
+    use super::sched::{self, TState};
+    use std::any::Any;
+
+    pub struct Builder {
+        name: Option<String>,
+    }
+    pub struct JoinHandle<T> {
+        id: usize,
+        _p: std::marker::PhantomData<T>,
+    }
+    impl Builder {
+        pub fn new() -> Self {
+            Builder { name: None }
+        }
+        pub fn name(mut self, n: String) -> Self {
+            self.name = Some(n);
+            self
+        }
+        pub fn spawn<F>(self, f: F) -> std::io::Result<JoinHandle<()>>
+        where
+            F: FnOnce() + Send + 'static,
+        {
+            let c = sched::ctrl();
+            let id = {
+                let mut g = c.inner.lock().unwrap();
+                g.threads.push(TState::Runnable);
+                g.results.push(None);
+                g.threads.len() - 1
+            };
+            let c2 = c.clone();
+            let mut b = std::thread::Builder::new();
+            if let Some(n) = self.name {
+                b = b.name(n);
+            }
+            let os = b.spawn(move || {
+                sched::set_me(id);
+                // wait to be scheduled for the first time
+                {
+                    let mut g = c2.inner.lock().unwrap();
+                    while !(g.aborted || g.current == id) {
+                        g = c2.cv.wait(g).unwrap();
+                    }
+                    if g.aborted {
+                        g.threads[id] = TState::Finished;
+                        return;
+                    }
+                }
+                let r = std::panic::catch_unwind(std::panic::AssertUnwindSafe(f));
+                let mut g = c2.inner.lock().unwrap();
+                let r = match r {
+                    Err(e) if e.is::<sched::Abort>() => Ok(()),
+                    other => other,
+                };
+                let panicked = r.is_err();
+                g.trace.push(sched::Event::Exit(id, panicked));
+                g.results[id] = Some(r);
+                g.threads[id] = TState::Finished;
+                if !g.aborted {
+                    // hand over to somebody else
+                    g.current = usize::MAX;
+                    let inner: &mut sched::Inner = &mut g;
+                    sched_dispatch(inner);
+                }
+                c2.cv.notify_all();
+            })?;
+            c.inner.lock().unwrap().os_handles.push(os);
+            Ok(JoinHandle { id, _p: std::marker::PhantomData })
+        }
+    }
+    fn sched_dispatch(inner: &mut sched::Inner) {
+        // same as Inner::dispatch, exposed for the exiting thread
+        inner.dispatch_pub();
+    }
+    impl<T> JoinHandle<T> {
+        pub fn join(self) -> Result<(), Box<dyn Any + Send>> {
+            sched::yield_as(TState::Join(self.id));
+            let c = sched::ctrl();
+            let r = c.inner.lock().unwrap().results[self.id].take().unwrap();
+            r
+        }
+    }
+}
+
+impl sched::Inner {
+    pub fn dispatch_pub(&mut self) {
+        // re-use the private dispatcher
+        let enabled_before = self.trace.len();
+        let _ = enabled_before;
+        sched::dispatch_of(self);
+    }
+}
